@@ -21,6 +21,7 @@ import (
 	"github.com/ulikunitz/xz/lzma"
 
 	"verif/internal/ev"
+	"verif/internal/gen"
 	"verif/internal/mon"
 	"verif/internal/prng"
 	"verif/internal/ref"
@@ -60,6 +61,30 @@ func c11Seeds(c *ev.Ctx) []fseed {
 			fs.Bounds = []int{0, 1, 5, 13}
 		}
 		out = append(out, fs)
+	}
+	// larger seeds whose matches reach far beyond a 4 KiB window: after a mutation of the
+	// declared / configured dictionary size the distances exceed the decoder's buffer
+	r := prng.New(c.Seed, 110)
+	for i := 0; i < 6; i++ {
+		data := gen.Data(r, []string{"xgapx", "nearrep", "xx"}[i%3], r.Range(12000, 40000))
+		k := lzCase{LC: 3, LP: 0, PB: 2, DictCap: 65536, BufSize: 4096, Matcher: i % 2, Mode: i % 3, Part: "one"}
+		if sk, dev, pn := runLZWriter(k, data); dev == "" && pn == nil {
+			out = append(out, fseed{ID: fmt.Sprintf("farlzma%d", i), Format: "lzma", B: sk.Buf, Dict: 4096, Bounds: []int{0, 1, 2, 3, 5, 13}})
+		}
+		var buf bytes.Buffer
+		if w, err := (lzma.Writer2Config{DictCap: 65536, Matcher: lzma.MatchAlgorithm(i % 2)}).NewWriter2(&buf); err == nil {
+			w.Write(data)
+			w.Close()
+			fs := fseed{ID: fmt.Sprintf("farlzma2-%d", i), Format: "lzma2", B: buf.Bytes(), Dict: 4096}
+			if ch, _, err := ref.WalkLZMA2(fs.B); err == nil {
+				for _, x := range ch {
+					fs.Bounds = append(fs.Bounds, x.Offset)
+				}
+			}
+			out = append(out, fs)
+		}
+		xb := libWriteXZ(xz.WriterConfig{DictCap: 65536, BlockSize: int64(r.Pick(0, 9000))}, data)
+		out = append(out, fseed{ID: fmt.Sprintf("farxz%d", i), Format: "xz", B: xb, Dict: 4096, Bounds: xzBounds(xb)})
 	}
 	return out
 }
@@ -246,7 +271,7 @@ func threadTicks(tid int32) int64 {
 }
 
 func checkC11(c *ev.Ctx) {
-	c.SetRule("inputs derived from valid seeds of the three formats (library-, xz-utils- and generator-written) by 1..4 stacked structure-aware mutations (bit/byte/burst changes near structural fields, insert/delete/duplicate/splice, truncation+garbage, extreme values in size fields, chunk-header rewrites, CRC32-resealed container edits, random bytes after a valid prefix), plus pure random strings; each is opened and read (to the first error, end of stream or 1 MiB of output) by the reader of its format and, for a share, by the other readers. Monitors: panic (recover), 0<=n<=len(p), logical stall (1000 source calls after exhaustion / 1000 consecutive (0,nil)), CPU-time stall (thread CPU time of one input > 60 s). distinct non-trivial = distinct (reader kind | seed | outcome class) tuples")
+	c.SetRule("inputs derived from valid seeds of the three formats (library-, xz-utils- and generator-written) by 1..4 stacked structure-aware mutations (bit/byte/burst changes near structural fields, insert/delete/duplicate/splice, truncation+garbage, extreme values in size fields, chunk-header rewrites, CRC32-resealed container edits, random bytes after a valid prefix), plus pure random strings; each is opened and read (to the first error, end of stream or 1 MiB of output, followed by three further Read calls) by the reader of its format and, for a share, by the other readers. Monitors: panic (recover), 0<=n<=len(p), logical stall (1000 source calls after exhaustion / 1000 consecutive (0,nil)), CPU-time stall (thread CPU time of one input > 60 s). distinct non-trivial = distinct (reader kind | seed | outcome class) tuples")
 	c.Assume("declared dictionary sizes are bounded as the quantifier states (<= 64 MiB; .lzma header clamped after mutation, xz dictionary byte only changed by the resealing mutator and kept <= code 28)", "the CPU-time stall bound (60 s thread CPU time for an input that produces at most 1 MiB) is the one place where a time measurement contributes to a verdict")
 	seeds := c11Seeds(c)
 	n := 1000000
@@ -408,6 +433,16 @@ func feedReader(kind string, in []byte, dict int) (outcome, violation, what stri
 			total += n
 			if err != nil {
 				rerr = err
+				// a caller may read again after an error or the end of the stream: three
+				// further calls must return (no panic) with n within the buffer
+				post := make([]byte, 4)
+				for k := 0; k < 3; k++ {
+					n2, _ := lr.Read(post[:1+k])
+					if n2 < 0 || n2 > 1+k {
+						stall = fmt.Sprintf("Read after the terminal result returned n=%d for a buffer of %d bytes", n2, 1+k)
+						return
+					}
+				}
 				return
 			}
 			if n == 0 {
